@@ -205,7 +205,7 @@ func scanBody(list []ast.Stmt) (returns int, bad bool) {
 			return false
 		case *ast.ReturnStmt:
 			returns++
-		case *ast.DeferStmt, *ast.GoStmt, *ast.LabeledStmt:
+		case *ast.DeferStmt, *ast.LabeledStmt:
 			bad = true
 		case *ast.BranchStmt:
 			if n.(*ast.BranchStmt).Tok == token.GOTO || n.(*ast.BranchStmt).Label != nil {
